@@ -74,6 +74,17 @@ PROPS = {
         assumptions=["POSIX durability contract: fsync(file) makes data durable, fsync(dir) makes entries durable, rename is atomic"],
         harnesses=[dict(name="VerifGobDurable", bounds=dict(quick=dict(CALLS=10), thorough=dict(CALLS=12)), opts=dict(unwind=3000))],
     ),
+    "C08": dict(
+        pkg=TY,
+        explanation="no-panic harnesses for the parsers of untrusted bytes: object parser (strict + relaxed retry + depth limit), object header and keyword scanners, string/name/date/UTF-16 text decoders, RunLength / ASCIIHex decoders: the input is an arbitrary byte string (every byte an SMT variable) of length <= N; any path on which the engine detects a Go panic (index, slice bound, nil dereference, type assertion, division by zero), an exceeded unwinding bound (non-termination) or runaway recursion is a violation",
+        outside="inputs longer than N bytes; whole-document reading, xref repair, cyclic object graphs, fonts, certificates, PKCS#7, JSON/CSV form data; time bounds; the time.Parse fall-backs of relaxed DateTime (stubbed off)",
+        harnesses=[
+            dict(name="VerifNoPanicTypes", bounds=dict(quick=dict(N=2), thorough=dict(N=3)), opts=dict(unwind=300)),
+            dict(name="VerifNoPanicParse", pkg=MO, bounds=dict(quick=dict(N=2), thorough=dict(N=3)), opts=dict(unwind=300)),
+            dict(name="VerifLimitRunLength", pkg=FI, bounds=dict(quick=dict(N=2), thorough=dict(N=3)), opts=dict(unwind=700)),
+            dict(name="VerifLimitASCIIHex", pkg=FI, bounds=dict(quick=dict(N=3), thorough=dict(N=4)), opts=dict(unwind=100)),
+        ],
+    ),
     "C11": dict(
         pkg=PD,
         explanation="appendPDFObject (the writer's object serialiser) followed by model.ParseObjectContext (the reader's object parser), executed symbolically: every leaf kind with symbolic content (null, boolean, integer up to INTMAX in magnitude, names without NUL, escaped literal strings and hex strings of <= S bytes, indirect references), and arrays / dictionaries / nested containers over every ordered pair of neighbouring leaf kinds (separator decisions) with representative concrete leaves and a symbolic one-byte dictionary key; hex strings compare by their bytes, null dictionary entries read back as absent",
